@@ -76,6 +76,8 @@ def damages(a, pa, pb, thorough, trunc):
 
 
 def judge_copy(pb, ext, before_flags, t0, after_flags, t1, src_triples):
+    if isinstance(t1, core.HashedBlob):
+        return "target-length-changed", "%d -> %d bytes" % (len(t0), t1.declared_len)
     if len(t1) != len(t0):
         return "target-length-changed", "%d -> %d bytes" % (len(t0), len(t1))
     if t1[:pb.header_len] != t0[:pb.header_len]:
